@@ -14,7 +14,7 @@ def extract(lang, text):
     return EXTRACT[lang].extract(text)
 
 
-def generate(sources, langs=None, cfgs=None, chunk=20000):
+def generate(sources, langs=None, cfgs=None, chunk=20000, multi=False, extra_files=None):
     """sources: list of Rust source strings. Returns [{lang: result}] where result is
     {"status": ok|error|panic|abort|unreadable, "obs": observation, "text": output, "errors"/"panic": ...}"""
     langs = langs or common.LANGS
@@ -24,7 +24,11 @@ def generate(sources, langs=None, cfgs=None, chunk=20000):
             cfg = dict(DEFAULT_CFG[lang])
             if cfgs:
                 cfg.update(cfgs[i].get(lang, {}) if isinstance(cfgs, list) else cfgs.get(lang, {}))
-            jobs.append({"id": len(jobs), "lang": lang, "files": [{"src": src}], "cfg": cfg})
+            if multi:       # folder-output mode of the library: one crate "cratex", output keyed by the crate name
+                jobs.append({"id": len(jobs), "lang": lang, "multi_file": True, "cfg": cfg,
+                             "files": [{"src": src, "crate": "cratex", "path": "cratex/src/lib.rs", "out": "cratex"}] + (extra_files[i] if extra_files else [])})
+            else:
+                jobs.append({"id": len(jobs), "lang": lang, "files": [{"src": src}], "cfg": cfg})
     results = []
     for part in common.chunks(jobs, chunk):
         results += common.run_driver("gen", part)
@@ -36,7 +40,7 @@ def generate(sources, langs=None, cfgs=None, chunk=20000):
             r = results[k]
             k += 1
             if r["status"] == "ok":
-                text = r["outputs"].get("", "")
+                text = r["outputs"].get("cratex" if multi else "", "")
                 try:
                     per[lang] = {"status": "ok", "obs": extract(lang, text), "text": text}
                 except (ExtractError, LexError, RecursionError) as e:
